@@ -102,6 +102,9 @@ def has_huge(v):
 
 def safe(v):
     """repr for messages: integers beyond the digit limit cannot be printed"""
+    import collections.abc
+    if not isinstance(v, dict) and isinstance(v, collections.abc.Mapping):
+        return '%s(%s)' % (type(v).__name__, safe(dict(v)))
     if isinstance(v, bool):
         return repr(v)
     if isinstance(v, int):
@@ -157,9 +160,9 @@ def role_case(match, target, creds):
     if exp is None:
         return False, 'outside precondition (malformed placeholder)'
     import copy
-    t0, c0 = copy.deepcopy(target), copy.deepcopy(creds)
+    t0, c0 = copy.deepcopy(dict(target)), copy.deepcopy(creds)
     out = outcome(_checks.RoleCheck('role', match), target, creds, None)
-    if (t0, c0) != (target, creds):
+    if (t0, c0) != (dict(target), creds):
         # native reading of the frame: the contract modifies nothing the caller passed in
         return True, 'role:%s wrote into its arguments: target %s -> %s, creds %s -> %s' % (match, safe(t0), safe(target), safe(c0), safe(creds))
     if out[0] == 'exc':
@@ -212,9 +215,9 @@ def generic_case(kind, match, target, creds):
     if exp is None:
         return False, 'outside precondition (malformed placeholder)'
     import copy
-    t0, c0 = copy.deepcopy(target), copy.deepcopy(creds)
+    t0, c0 = copy.deepcopy(dict(target)), copy.deepcopy(creds)
     out = outcome(_checks.GenericCheck(kind, match), target, creds, None)
-    if (t0, c0) != (target, creds):
+    if (t0, c0) != (dict(target), creds):
         return True, '%s:%s wrote into its arguments: target %s -> %s, creds %s -> %s' % (kind, match, safe(t0), safe(target), safe(c0), safe(creds))
     if out[0] == 'exc':
         return True, '%s:%s raised %s for target=%s creds=%s' % (kind, match, out[1], safe(target), safe(creds))
